@@ -82,6 +82,17 @@ class SkipStageHandler(StabilizeHandler[SkipStage]):
                 )
                 return
 
+            # A cancel has been accepted for this workflow: the CancelStage fan-out
+            # settles this stage (CANCELED). Skipping it here would let a canceled
+            # workflow whose remaining stages are all SKIPPED end SUCCEEDED.
+            if stage.execution.is_canceled:
+                logger.debug(
+                    "Ignoring SkipStage for %s (%s): workflow is canceled",
+                    stage.name,
+                    stage.id,
+                )
+                return
+
             # Mark stage as skipped
             self.set_stage_status(stage, WorkflowStatus.SKIPPED)
             stage.end_time = self.current_time_millis()
